@@ -26,7 +26,7 @@ def budget(tier):
 def gen(R, tier):
     big = (tier == 'thorough') and R.chance(0.3)
     m, cname = molgen.gen_mol_class(R, big=big)
-    fclass = R.choice(['two', 'few', 'few', 'many'])
+    fclass = R.choice(['two', 'two', 'few', 'few', 'many'])
     lo, hi = {'two': (2, 2), 'few': (2, 4), 'many': (4, 6)}[fclass]
     owner = molgen.partition(R, m, max_frags=hi, min_frags=lo)
     feats = {'mol:' + cname}
@@ -38,7 +38,14 @@ def gen(R, tier):
     if twin is None:
         return None
     feats.add('shared:%s' % (info['nshared'] if info['nshared'] < 3 else '3+'))
-    return dict(input=s, twin=twin, model=m.to_json(), nshared=info['nshared'], natoms=info['natoms'],
+    # with at most one descriptor pair of each kind the label-insensitive convention is unambiguous too
+    fb = info['frag_block']
+    unambiguous = fb.count('[!') <= 2 and fb.count('[$') <= 2 and fb.count('[>') <= 1 and fb.count('[<') <= 1
+    if unambiguous:
+        feats.add('also_label_insensitive')
+        if fb.count('[!') == 2 and (fb.count('[$') == 2 or fb.count('[>') == 1):
+            feats.add('label_insensitive_mixed_kinds')
+    return dict(legacy_false_ok=unambiguous, input=s, twin=twin, model=m.to_json(), nshared=info['nshared'], natoms=info['natoms'],
                 nfr=info['nfr'], features=sorted(feats))
 
 
@@ -52,6 +59,9 @@ def oracle(case):
     hg = check_molecule(fine, model_g, 'overlapping description')
     expect(len(hg) == case['natoms'] - case['nshared'], 'squash:atom-count',
            lambda: '%d heavy atoms, fragments contain %d and %d pairs are shared' % (len(hg), case['natoms'], case['nshared']))
+    if case.get('legacy_false_ok'):
+        _, fine3 = sut(resolve, case['input'], legacy=False)
+        check_molecule(fine3, model_g, 'overlapping description, label-insensitive convention')
     _, fine2 = sut(resolve, case['twin'])
     check_molecule(fine2, model_g, 'disjoint description')
     merged = [n for n, d in fine.nodes(data=True) if len(d.get('fragid', [])) > 1 and d.get('element') != 'H']
